@@ -235,7 +235,7 @@ def _grid_spec_to_code(ctx, hyruns, cfg):
 
 def grid_code_to_spec(ctx, hyruns, ncases):
     rng = np.random.default_rng(ctx.seed + 190)
-    words = ["alpha", "b_2", "Gr4j", "x", "yy", "month_a", "Z9", "k_", "lam", "q10"]
+    words = ["alpha", "b_2", "Gr4j", "x", "yy", "month_a", "Z9", "k_", "lam", "q10", "gr4j", "GR4J", "X", "Alpha", "z9"]      # incl. values equal up to case
     recs = []
     for c in range(ncases):
         nopt = int(rng.integers(1, 5))
